@@ -54,10 +54,23 @@ def run(ck):
 
     # --- collect the kind branches: If nodes with test `E.is_K()`
     branches = {}
+    from sa.astutil import arm_when, positive_test
+
+    def is_dispatch(n):
+        t = positive_test(n) if isinstance(n, ast.If) else None
+        return t is not None and isinstance(t, ast.Call) and isinstance(t.func, ast.Attribute) and norm(t.func.value) == E and t.func.attr in IS_PRED
     for n in walk_body(fn):
-        if isinstance(n, ast.If) and isinstance(n.test, ast.Call) and isinstance(n.test.func, ast.Attribute) \
-                and norm(n.test.func.value) == E and n.test.func.attr in IS_PRED:
-            branches[IS_PRED[n.test.func.attr]] = n
+        if is_dispatch(n):
+            # the statements run when the test holds, whatever the layout (elif chain, guards, negated guard + fall-through),
+            # up to the next dispatch test
+            region = []
+            for s_ in arm_when(n, True):
+                if is_dispatch(s_) and s_ is not n:
+                    break
+                region.append(s_)
+            br_ = ast.copy_location(ast.If(test=positive_test(n), body=region, orelse=[]), n)
+            br_._parent = getattr(n, "_parent", None)
+            branches[IS_PRED[positive_test(n).func.attr]] = br_
     for k in ("ExprOp", "ExprMem", "ExprSlice", "ExprCond", "ExprCompose", "ExprAssign", "ExprInt", "ExprId", "ExprLoc"):
         ck.need(k in branches, "match_expr: branch for %s not found" % k)
 
@@ -291,6 +304,27 @@ def run(ck):
     extra = sorted(set(lists[0]) - COMMUTATIVE)
     ck.ob("R4", "ExprOp.is_commutative:list", not extra, m.where(ic),
           "operators %s are declared commutative but are not" % extra)
+    # ... and the table is the ONLY way to be commutative: every returned value is a membership of the operator in a literal list of
+    # commutative operators (a disjunct such as a name prefix admits operators whose operands are ordered)
+    for qn in ("ExprOp.is_commutative", "is_commutative"):
+        f_ = m.funcs.get(qn)
+        if f_ is None:
+            continue
+        rets_ = [n for n in walk_body(f_) if isinstance(n, ast.Return) and n.value is not None]
+
+        def only_table(v):
+            if isinstance(v, ast.Compare) and len(v.ops) == 1 and isinstance(v.ops[0], ast.In) and isinstance(v.comparators[0], (ast.List, ast.Tuple, ast.Set)):
+                ops_ = str_elts(v.comparators[0])
+                return bool(ops_) and not (set(ops_) - COMMUTATIVE) and norm(v.left).split(".")[-1] in ("op", "_op")
+            if isinstance(v, ast.BoolOp) and isinstance(v.op, ast.And):
+                return any(only_table(x) for x in v.values)          # a conjunction can only narrow the table
+            if isinstance(v, ast.Constant) and v.value is False:
+                return True
+            return False
+        bad_ = [norm(r.value)[:80] for r in rets_ if not only_table(r.value)]
+        ck.ob("R4", "%s:table-only" % qn, bool(rets_) and not bad_, m.where(f_),
+              "%s answers `%s`: operators outside the reviewed table %s can be declared commutative, and match_expr then tries "
+              "permutations of ordered operands" % (qn, "; ".join(bad_), sorted(COMMUTATIVE)))
 
     # --- R5 leaves
     for k in ("ExprInt", "ExprId", "ExprLoc"):
